@@ -494,6 +494,66 @@ theorem c14_demux_total_run (env : Env) (lk : Link) (fs : List Frame) (m : Machi
     obtain ⟨m', rs, hrun⟩ := ih r.machine hb'
     exact ⟨m', r :: rs, by simp [runFrames, hr, hrun]⟩
 
+
+/-- `BindingsPresent` is not an assumption about the run: a machine without bindings has it, and
+    `Udp::listen` (with the `Ipv4::listen` it makes) by a protocol of the machine keeps it -/
+theorem c14_bindings_present_init (ps : List Pid) (lis : List (Endpoint × Pid)) (ss : List (Endpoints × Session)) :
+    BindingsPresent { dm := Demux.Machine.init ps, tcpListen := lis, tcpSessions := ss } :=
+  ⟨(fun _ _ h => by simp [Demux.Machine.init, lookup] at h), (fun _ _ h => by simp [Demux.Machine.init, lookup] at h)⟩
+
+theorem lookup_cons_cases {κ ν : Type} [DecidableEq κ] {k k' : κ} {v v' : ν} {l : List (κ × ν)}
+    (h : lookup k ((k', v') :: l) = some v) : v = v' ∨ lookup k l = some v := by
+  simp only [lookup] at h
+  split at h
+  · exact .inl (by cases h; rfl)
+  · exact .inr h
+
+/-- the machine after `Udp::listen`: unchanged, or with the UDP binding, or with the UDP and the
+    IPv4 binding of UDP -/
+theorem udpListen_fst (m : Demux.Machine) (up : Pid) (e : Endpoint) :
+    (udpListen m up e).1 = m ∨
+    (udpListen m up e).1 = { m with udp := (e, up) :: m.udp } ∨
+    (udpListen m up e).1 = { m with udp := (e, up) :: m.udp, ip := ((e.addr, protoUdp), pidUdp) :: m.ip } := by
+  unfold udpListen
+  cases h1 : lookup e m.udp with
+  | some a => exact .inl rfl
+  | none =>
+    dsimp only
+    by_cases h2 : pidIpv4 ∈ m.protocols
+    · rw [if_pos h2]
+      unfold ipv4Listen
+      dsimp only
+      cases h3 : lookup (e.addr, protoUdp) m.ip with
+      | some u =>
+        dsimp only
+        by_cases h4 : u = pidUdp
+        · rw [if_pos h4]; exact .inr (.inl rfl)
+        · rw [if_neg h4]; exact .inr (.inl rfl)
+      | none => exact .inr (.inr rfl)
+    · rw [if_neg h2]; exact .inr (.inl rfl)
+
+theorem c14_bindings_present_listen (m : Machine) (up : Pid) (e : Endpoint) (hb : BindingsPresent m)
+    (hup : up ∈ m.dm.protocols) (hudp : pidUdp ∈ m.dm.protocols) :
+    BindingsPresent { m with dm := (udpListen m.dm up e).1 } := by
+  rcases udpListen_fst m.dm up e with h | h | h
+  · rw [h]; exact hb
+  · rw [h]
+    refine ⟨hb.ip, ?_⟩
+    intro ep app hl
+    rcases lookup_cons_cases hl with rfl | hl'
+    · exact hup
+    · exact hb.udp _ _ hl'
+  · rw [h]
+    refine ⟨?_, ?_⟩
+    · intro key u hl
+      rcases lookup_cons_cases hl with rfl | hl'
+      · exact hudp
+      · exact hb.ip _ _ hl'
+    · intro ep app hl
+      rcases lookup_cons_cases hl with rfl | hl'
+      · exact hup
+      · exact hb.udp _ _ hl'
+
 def noUpstreamPanic : String := "panic:expect:Ipv4Session::receive:No such protocol"
 
 /-- the hypothesis is needed: an IPv4 binding whose upstream protocol the machine does not have
